@@ -27,7 +27,10 @@ What is EXPLORED, not proved (ctx.explored)
   * incompatible model combinations (exceptions inside the simulation) are outside the property and not generated.
 The tie model <-> code: (a) the real `convert` callback called directly over all registered names x argument
 spellings, observed with recording wrappers around re.fullmatch, ast.literal_eval and the registered constructors;
-(b) the real click commands invoked in-process with app.run/app.run_ftp replaced by a recording sentinel: events
+(b) the real click commands invoked in-process with app.run/app.run_ftp replaced by a recording sentinel (it records
+the call and then raises ValueError exactly where app.py does: probability / measurement probability outside [0, 1] or
+NaN, time steps < 1); every float / int value text of FLOAT_SPELLINGS / INT_SPELLINGS goes through the real click
+parameter (conversion + validator callback) alone and inside whole command lines: events
 (literal_eval / constructor calls), the list of simulation calls with their arguments, stdout, output file, error log
 and exit status compared with the model's reply, in all output-path situations.
 LEVEL = 'proof' refers to the decision-logic theorems only.
@@ -37,6 +40,7 @@ import builtins
 import contextlib
 import json
 import logging
+import math
 import os
 import re
 import shutil
@@ -59,8 +63,15 @@ RULE = ('(a) every name registered in the installed entry points (run: codes, er
         'valid and out-of-range / nan / non-numeric probabilities, -r/-f/-s/-m/TIME_STEPS in and out of range, good and '
         'malformed specs, serialisable and unserialisable payload) x output situations (stdout, new file, existing '
         'file, existing directory, missing directory, parent is a file, over-long name) with app.run / app.run_ftp '
-        'replaced by a recording sentinel: events, simulation-call list, stdout / file / log / exit compared with the '
-        'model; merge with missing / directory / bad-JSON / good inputs; (c) CLI vs API differential on real runs for '
+        'replaced by a recording sentinel (which refuses what app.run / app.run_ftp refuse, so that results dropped by '
+        'an exception inside the API are observable): events, simulation-call list, stdout / file / log / exit compared '
+        'with the model; a deterministic sweep of every float spelling click FLOAT accepts or refuses (nan / inf in every '
+        'case and sign, overflow, underflow, underscores, whitespace, signed zeros, boundary neighbours, non-ASCII '
+        'digits, hex / fraction / suffix forms) in every probability-like position (alone, after / before / between '
+        'valid probabilities, run and run-ftp, -m in every option style) and of every int spelling for -r / -f / -s / '
+        'TIME_STEPS, through the real click commands AND through the real click parameter alone against the model '
+        'validators (c19 prob / c19 int), with the monitor exit 2 / no traceback / no simulation call / earlier results '
+        'not lost; merge with missing / directory / bad-JSON / good inputs; (c) CLI vs API differential on real runs for '
         'every compatible registered (code, error model, decoder) combination, fixed seed, plus real subprocesses. '
         'non-trivial = a spec with an argument list or a malformed spec; a command line with an invalid parameter, '
         'a non-stdout target or more than one probability')
@@ -119,6 +130,41 @@ def floattok(text):
     if v in (float('inf'), float('-inf')):
         return 'inf' if v > 0 else '-inf'
     return rat(Fraction(v))
+
+
+def ftok(v):
+    """canonical token of a float the REAL code handed to the simulation; never raises (a NaN or an infinity that got
+    through the validators must show up as a disagreement, not crash the harness)"""
+    try:
+        v = float(v)
+    except (TypeError, ValueError):
+        return 'bad'
+    if v != v:
+        return 'nan'
+    if v in (float('inf'), float('-inf')):
+        return 'inf' if v > 0 else '-inf'
+    return rat(Fraction(v))
+
+
+def spec_prob(text):
+    """the documented range of a probability parameter, stated independently of cli.py: text that click's FLOAT
+    (= Python float()) parses to a finite number in [0.0, 1.0]; returns that number or None"""
+    try:
+        v = float(text)
+    except ValueError:
+        return None
+    if math.isnan(v) or math.isinf(v):
+        return None
+    return v if 0.0 <= v <= 1.0 else None
+
+
+def spec_int(text, lo):
+    """documented range of an INT parameter (-r/-f/TIME_STEPS: >= 1, -s: >= 0): text that int() parses to >= lo"""
+    try:
+        v = int(text)
+    except ValueError:
+        return None
+    return v if v >= lo else None
 
 
 def inttok(text):
@@ -229,9 +275,26 @@ def make_fake(rec, unser):
     def result(n, p):
         return {'sentinel': n, 'error_probability': p, 'n_run': np.int64(3) if unser else 3, 'tup': (1, 2)}
 
+    def refuse(p, m, ts):
+        # what app.run / app.run_ftp do first with arguments outside their documented domain (app.py)
+        if ts is not None and not ts >= 1:
+            raise ValueError('Time steps must be integer >= 1.')
+        if not (0 <= p <= 1):
+            raise ValueError('Error probability must be in [0, 1].')
+        if not (m is None or (0 <= m <= 1)):
+            raise ValueError('Measurement error probability must be None or in [0, 1].')
+
+    def guarded(p, m, ts):
+        try:
+            refuse(p, m, ts)
+        except ValueError:
+            rec.sims[-1]['refused'] = True     # the simulation was CALLED with an argument the API itself refuses
+            raise
+
     def run(code, error_model, decoder, error_probability, max_runs=None, max_failures=None, random_seed=None):
         rec.sims.append({'p': error_probability, 'ts': None, 'm': None, 'r': max_runs, 'f': max_failures,
                          's': random_seed, 'models': [repr(code), repr(error_model), repr(decoder)]})
+        guarded(error_probability, None, None)
         return result(len(rec.sims), error_probability)
 
     def run_ftp(code, time_steps, error_model, decoder, error_probability, measurement_error_probability=None,
@@ -239,6 +302,7 @@ def make_fake(rec, unser):
         rec.sims.append({'p': error_probability, 'ts': time_steps, 'm': measurement_error_probability,
                          'r': max_runs, 'f': max_failures, 's': random_seed,
                          'models': [repr(code), repr(error_model), repr(decoder)]})
+        guarded(error_probability, measurement_error_probability, time_steps)
         return result(len(rec.sims), error_probability)
 
     return {'run': run, 'run_ftp': run_ftp}
@@ -497,6 +561,148 @@ GOOD_SEED = ['0', '1', '13', '4294967296', '340282366920938463463374607431768211
 BAD_SEED = ['-1', 'x', '1.5', '', '-5']
 
 
+# every kind of text click's FLOAT (= float()) accepts or refuses: not-a-number and infinity spellings in every case /
+# sign, overflow and underflow to inf / 0.0, digit-group underscores, surrounding whitespace, signed zeros, the
+# boundary neighbours of 0 and 1, non-ASCII decimal digits, hex / C99 / fraction / suffix forms, empty text
+FLOAT_SPELLINGS = [
+    'nan', 'NaN', 'NAN', 'nAn', '-nan', '+nan', '-NaN', ' nan', 'nan ', '\tnan\n', 'nan(0)', 'nanq', 'n_an', 'snan',
+    'inf', '-inf', '+inf', 'Inf', 'INF', 'iNf', 'Infinity', '-Infinity', '+Infinity', 'infinity', ' inf ', 'infinit',
+    '1e400', '-1e400', '1e309', '1.8e308', '-1.8e308', '1e-400', '-1e-400', '4.9e-324', '-4.9e-324', '1e-323',
+    '1_0', '1_0e-2', '0.1_5', '0_1', '1__0', '_1', '1_', '0._5',
+    ' 0.5', '0.5 ', ' 0.5 ', '\t.5\n', '\x0b1\x0c', '0. 5', '0 .5',
+    '0', '-0', '+0', '0.0', '-0.0', '+0.0', '00.5', '+.5', '.5', '5e-1', '5E-1', '0.5e0', '50e-2', '1', '1.', '1.0',
+    '1e0', '10e-1', '+1', '01', '1.0000000000000002', '0.9999999999999999', '1.00000000000000001', '1.1', '2', '-0.1',
+    '-1e-320', '-1', '1e1', '100',
+    '\u0661', '\u0660.\u0665', '\uff11', '\uff10.\uff15', '\u0967', '\u00b2', '\u00bd', '\u2460',
+    '0x1p-1', '0x1', '0x0', '0x.8', '0b1', '0o1', '1/2', '0,5', '0.5f', '0.5d', '1e', 'e1', '.', '', ' ', '-', '+',
+    '--1', '0.5.1', '1 000', 'abc', 'None', 'True', 'False', '1j', '(0.5)', '0.5,', "'0.5'", '1e+0', '1e-0',
+]
+# every kind of text click's IntRange (= int()) accepts or refuses
+INT_SPELLINGS = [
+    '1', '2', '10', '01', '001', '+5', '+1', '1_0', '1_000', '1__0', '_1', '1_', ' 4 ', ' 1', '1 ', '\n3', '\t2\t',
+    '0', '-0', '+0', '00', '-1', '-5', '-01', '\u0661\u0662', '\uff11\uff12', '\u0967', '\u00b2', '\u2460',
+    '0x10', '0b11', '0o7', '1e3', '1E0', '1.0', '1.', '1.5', '.5', '10**2', '1+1', '3L', '3l', '1,0', '1 0', '', ' ',
+    '-', '+', 'x', 'None', 'True', 'nan', 'inf', '99999999999999999999999999999999', '-99999999999999999999999999999999',
+    '4294967296', '18446744073709551616', '340282366920938463463374607431768211456',
+]
+# the random command-line generator draws from the same universes
+GOOD_P += [t for t in FLOAT_SPELLINGS if spec_prob(t) is not None and t not in GOOD_P]
+BAD_P += [t for t in FLOAT_SPELLINGS if spec_prob(t) is None and t not in BAD_P]
+GOOD_INT1 += [t for t in INT_SPELLINGS if spec_int(t, 1) is not None and t not in GOOD_INT1]
+BAD_INT1 += [t for t in INT_SPELLINGS if spec_int(t, 1) is None and t not in BAD_INT1]
+GOOD_SEED += [t for t in INT_SPELLINGS if spec_int(t, 0) is not None and t not in GOOD_SEED]
+BAD_SEED += [t for t in INT_SPELLINGS if spec_int(t, 0) is None and t not in BAD_SEED]
+PROB_PARAMS = {'probs': ('error_probabilities', None), 'm': ('measurement_error_probability', None)}
+INT_PARAMS = {'r': ('max_runs', 1), 'f': ('max_failures', 1), 's': ('random_seed', 0), 'ts': ('time_steps', 1)}
+OPT_NAMES = {'r': ('-r', '--max-runs'), 'f': ('-f', '--max-failures'), 's': ('-s', '--random-seed'),
+             'm': ('-m', '--measurement-error-probability')}
+
+
+def styles_for(v):
+    """option spellings that can carry the value text `v` (a leading '-' or an empty text needs an attached form)"""
+    if v == '':
+        return ['long-eq']
+    if v.startswith('-'):
+        return ['long-eq', 'short-attached']
+    return ['short-attached', 'short-sep', 'long-eq', 'long-sep']
+
+
+def param_eval(cmd, role, text):
+    """ONE parameter value through the REAL click parameter (type conversion + range check / callback of cli.py)
+    -> (impl string, accepted True / False / None = exception, value)"""
+    import click
+    from qecsim import cli
+    cmdobj = cli.cli.commands[cmd]
+    pname, lo = PROB_PARAMS[role] if role in PROB_PARAMS else INT_PARAMS[role]
+    param = next(p for p in cmdobj.params if p.name == pname)
+    isprob = role in PROB_PARAMS
+    v = None
+    try:
+        v = param.process_value(click.Context(cmdobj), (text,) if role == 'probs' else text)
+        if role == 'probs':
+            v = v[0]
+        impl = 'ok ' + (ftok(v) if isprob else str(int(v)))
+        accepted = True
+    except click.UsageError:
+        impl, accepted = 'rej', False
+    except Exception as ex:
+        impl, accepted = 'TRACEBACK ' + type(ex).__name__, None
+    return impl, accepted, v
+
+
+def param_case(ctx, cmd, role, text):
+    """the real parameter against the model's validator (`c19 prob` / `c19 int`), plus the property monitor"""
+    impl, accepted, v = param_eval(cmd, role, text)
+    isprob = role in PROB_PARAMS
+    lo = None if isprob else INT_PARAMS[role][1]
+    meta = {'kind': 'param', 'cmd': cmd, 'role': role, 'text': text}
+    line = 'c19 prob ' + floattok(text) if isprob else 'c19 int {} {}'.format(lo, inttok(text))
+    ctx.case(line, impl, nontrivial=True, meta=meta)
+    ctx.count('param-' + role, impl.split()[0])
+    what = param_verdict(cmd, role, text, accepted, v if accepted else None, impl)
+    if what:
+        ctx.monitor_fail(what, meta, key='validator-' + ('accepts-invalid' if accepted else 'refuses-valid'
+                                                          if accepted is False else 'traceback'))
+
+
+def param_verdict(cmd, role, text, accepted, value, impl):
+    isprob = role in PROB_PARAMS
+    lo = None if isprob else INT_PARAMS[role][1]
+    spec = spec_prob(text) if isprob else spec_int(text, lo)
+    pname = (PROB_PARAMS[role] if isprob else INT_PARAMS[role])[0]
+    doc = 'a FLOAT in [0.0, 1.0]' if isprob else 'an INT >= {}'.format(lo)
+    if accepted is None:
+        return '{} {}: the value text {!r} ends in an exception other than a usage error ({})'.format(
+            cmd, pname, text, impl)
+    if accepted and spec is None:
+        return ('{} {}: the value text {!r} is not {} but passes the real click conversion + validator of cli.py '
+                '(value handed on: {!r}); the run that follows is a simulation with an invalid parameter or an '
+                'exception inside the API'.format(cmd, pname, text, doc, value))
+    if not accepted and spec is not None:
+        return '{} {}: the value text {!r} is {} ({!r}) but is refused'.format(cmd, pname, text, doc, spec)
+    if accepted and value != spec:
+        return '{} {}: the value text {!r} is handed on as {!r}, not {!r}'.format(cmd, pname, text, value, spec)
+    return None
+
+
+def spelling_recipes(n0):
+    """deterministic sweep: every float spelling in every probability-like position (alone, after / before / between
+    valid probabilities, run and run-ftp, -m in every option style), every int spelling for -r / -f / -s (every option
+    style) and TIME_STEPS, over output situations (so that 'earlier results not lost' is observable)"""
+    out = []
+    sits = ['stdout-default', 'new', 'exists', 'missing-dir', 'stdout-dash', 'exists-empty']
+
+    def add(cmd, probs, opts, ts, bad):
+        code, em, dec = GOOD[cmd][len(out) % len(GOOD[cmd])]
+        n = n0 + len(out)
+        out.append({'kind': 'cmd', 'cmd': cmd, 'code': code, 'em': em, 'dec': dec,
+                    'ts': ts if cmd == 'run-ftp' else None, 'probs': probs, 'opts': opts,
+                    'situation': sits[len(out) % len(sits)], 'o_style': ['-o', '--output', '-o='][len(out) % 3],
+                    'o_pos': (len(out) % 5) / 5.0, 'intersperse': False, 'unser': False, 'bad': bad, 'n': n,
+                    'sweep': True})
+
+    base_opts = [['r', 'short-attached', '-r', '--max-runs', '2'], ['s', 'short-sep', '-s', '--random-seed', '7']]
+    for t in FLOAT_SPELLINGS:
+        bad = [] if spec_prob(t) is not None else ['p']
+        for probs in ([t], ['0.25', t], [t, '0.25'], ['0.1', t, '0.2']):
+            add('run', probs, [list(o) for o in base_opts], None, bad)
+        for probs in ([t], ['0.125', '0.25', t]):
+            add('run-ftp', probs, [list(o) for o in base_opts[:1]], '2', bad)
+        badm = [] if spec_prob(t) is not None else ['m']
+        for st in styles_for(t):
+            add('run-ftp', ['0.1', '0.2'], [['m', st, OPT_NAMES['m'][0], OPT_NAMES['m'][1], t]], '3', badm)
+    k = 0
+    for t in INT_SPELLINGS:
+        for role in ('r', 'f', 's'):
+            bad = [] if spec_int(t, INT_PARAMS[role][1]) is not None else [role]
+            for st in styles_for(t):
+                k += 1
+                add('run' if k % 3 else 'run-ftp', ['0.1', '0.3'],
+                    [[role, st, OPT_NAMES[role][0], OPT_NAMES[role][1], t]], '1', bad)
+        add('run-ftp', ['0.1'], [list(base_opts[0])], t, [] if spec_int(t, 1) is not None else ['ts'])
+    return out
+
+
 def fs_setup(tmp, situation, n):
     """returns (output argument or None, fs token, path to inspect or None, content before or None)"""
     d = os.path.join(tmp, 'o{}'.format(n))
@@ -674,7 +880,7 @@ def run_cmd_case(rc, tmp, split_of=None, driver=None):
     fstate, content = file_state(path, before)
     # expected JSON text of what the sentinel returned
     payload = [{'sentinel': i + 1, 'error_probability': s['p'], 'n_run': 3, 'tup': [1, 2]}
-               for i, s in enumerate(rec.sims)]
+               for i, s in enumerate(rec.sims) if not s.get('refused')]
     pj = json.dumps(payload, sort_keys=True)
     evs = ','.join(rec.events) or '_'
     usage = (res.exit_code == 2 and not tb and 'Usage:' in err and 'Error:' in err)
@@ -684,8 +890,8 @@ def run_cmd_case(rc, tmp, split_of=None, driver=None):
         so = '1' if res.stdout == pj + '\n' else ('0' if res.stdout == '' else 'X')
         fl = {'u': 'u', 'p': 'p'}.get(fstate) or ('c' if content == pj else 'p')
         lg = '1' if any(pj in m for m in rec.logs) else '0'
-        calls = ';'.join(':'.join([rat(Fraction(s['p'])), core.opt(s['ts']),
-                                   core.opt(s['m'], lambda v: rat(Fraction(v))), core.opt(s['r']), core.opt(s['f']),
+        calls = ';'.join(':'.join([ftok(s['p']), core.opt(s['ts']),
+                                   core.opt(s['m'], ftok), core.opt(s['r']), core.opt(s['f']),
                                    core.opt(s['s'])]) for s in rec.sims) or '_'
         impl = 'ran ev={} calls={} so={} file={} log={} exit={} tb={}'.format(evs, calls, so, fl, lg, res.exit_code,
                                                                               int(tb))
@@ -719,8 +925,17 @@ def run_cmd_case(rc, tmp, split_of=None, driver=None):
         fails.append(('argument text was EVALUATED as code (side effect observed)', 'code-evaluated'))
     if rc['bad']:
         if not usage or tb or rec.sims or res.stdout != '':
+            done = [x for x in rec.sims if not x.get('refused')]
+            kept = [w for w, ok in (('stdout', pj in res.stdout), ('file', content is not None and pj in content),
+                                    ('log', any(pj in m for m in rec.logs))) if ok] if done else []
+            lost = ('; {} simulation(s) for the earlier probabilities had completed and their results are {}'.format(
+                len(done), 'only in ' + str(kept) if kept else 'LOST (not on stdout, not in the file, not on the log)')
+                    if done else '')
             fails.append(('malformed / out-of-range argument {} did not end in a clean usage error: exit={} '
-                          'traceback={} simulations={}'.format(rc['bad'], res.exit_code, tb, len(rec.sims)),
+                          'traceback={} simulation calls={} (arguments handed to the API: {}){}'.format(
+                              rc['bad'], res.exit_code, tb, len(rec.sims),
+                              [{k: x[k] for k in ('p', 'm', 'ts', 'r', 'f', 's') if x[k] is not None}
+                               for x in rec.sims][:4], lost),
                           'invalid-not-usage-error'))
         if fstate != 'u':
             fails.append(('usage error but the output path was touched', 'usage-touches-file'))
@@ -778,6 +993,7 @@ def part_b(ctx, tmp):
                                 'situation': sit, 'o_style': '-o', 'o_pos': 0.0, 'intersperse': False,
                                 'unser': unser, 'bad': [], 'n': n})
                 n += 1
+    recipes += spelling_recipes(n)
     texts = sorted(set(t for rc in recipes for t in (rc['code'], rc['em'], rc['dec'])))
     split_of = dict(zip(texts, ctx.driver.ask(['c19 split ' + hexs(t) for t in texts])))
     for rc in recipes:
@@ -792,7 +1008,17 @@ def part_b(ctx, tmp):
         ctx.count('invalid', '+'.join(sorted(set(rc['bad']))) or 'none')
         ctx.count('outcome', impl.split()[0] + (' ' + ' '.join(impl.split()[3:]) if impl.startswith('ran') else ''))
         ctx.count('n_probs', len(rc['probs']))
-    # the protocol table on its own (exhaustive: 2 x 3 x 2)
+        ctx.count('generator', 'spelling-sweep' if rc.get('sweep') else 'random/protocol')
+    # the same value texts through the real click parameter alone (conversion + validator), against the model validator
+    for t in FLOAT_SPELLINGS:
+        param_case(ctx, 'run', 'probs', t)
+        param_case(ctx, 'run-ftp', 'probs', t)
+        param_case(ctx, 'run-ftp', 'm', t)
+    for t in INT_SPELLINGS:
+        for cmd in ('run', 'run-ftp'):
+            for role in ('r', 'f', 's'):
+                param_case(ctx, cmd, role, t)
+        param_case(ctx, 'run-ftp', 'ts', t)
     return len(recipes)
 
 
@@ -1140,6 +1366,18 @@ def part_d(ctx, tmp):
         ('bad-m', 'script', ['run-ftp', '-m', '2', 'rotated_planar(3,3)', '1', 'generic.depolarizing',
                              'rotated_planar.smwpm', '0.1'], None, None),
         ('nan', 'module', ['run', 'five_qubit', 'generic.depolarizing', 'generic.naive', 'nan'], None, None),
+        ('nan-after-valid', 'module', ['run', '-r3', '-s1', 'five_qubit', 'generic.depolarizing', 'generic.naive', '0.1',
+                                       'NaN'], None, None),
+        ('inf-after-valid', 'script', ['run', '-r2', 'steane', 'generic.bit_flip', 'generic.naive', '0.2', 'Infinity'],
+         None, None),
+        ('ftp-nan', 'script', ['run-ftp', 'rotated_planar(3,3)', '2', 'generic.bit_phase_flip', 'rotated_planar.smwpm',
+                               '0.05', '-nan'], None, None),
+        ('ftp-m-nan', 'module', ['run-ftp', '-m', 'nan', 'rotated_planar(3,3)', '2', 'generic.bit_phase_flip',
+                                 'rotated_planar.smwpm', '0.05'], None, None),
+        ('ftp-m-neg-nan', 'module', ['run-ftp', '--measurement-error-probability=-nan', 'rotated_planar(3,3)', '2',
+                                     'generic.bit_phase_flip', 'rotated_planar.smwpm', '0.05'], None, None),
+        ('ftp-m-overflow', 'script', ['run-ftp', '-m1e400', 'rotated_planar(3,3)', '2', 'generic.bit_phase_flip',
+                                      'rotated_planar.smwpm', '0.05'], None, None),
     ]
     procs = []
     for name, kind, argv, rc, path in jobs:
@@ -1204,7 +1442,8 @@ def part_d(ctx, tmp):
             fail('subprocess -o {}: results not preserved on the error log / file modified / zero exit'.format(name),
                  name, 'results-dropped')
     # malformed
-    for name in ('nonliteral', 'bad-p', 'bad-r', 'bad-ts', 'bad-m', 'nan'):
+    for name in ('nonliteral', 'bad-p', 'bad-r', 'bad-ts', 'bad-m', 'nan', 'nan-after-valid', 'inf-after-valid',
+                 'ftp-nan', 'ftp-m-nan', 'ftp-m-neg-nan', 'ftp-m-overflow'):
         rcode, so, se = results[name]
         n += 1
         if not (rcode == 2 and 'Traceback' not in se and 'Usage:' in se and so == ''):
@@ -1327,6 +1566,9 @@ def recheck(inp):
             rc.pop('argv', None)
             _, impl, fails = run_cmd_case(rc, tmp)
             return '; '.join(w for w, _, _ in fails) if fails else None
+        if kind == 'param':
+            impl, accepted, v = param_eval(inp['cmd'], inp['role'], inp['text'])
+            return param_verdict(inp['cmd'], inp['role'], inp['text'], accepted, v if accepted else None, impl)
         if kind == 'conv':
             from qecsim import cli
             ptype = None
